@@ -43,7 +43,8 @@ Theorem C18_stock_as_defined_including_solver :
   forall procs dims sd so, stock_of true procs dims sd = Ok so ->
   so_name so = sd_name sd /\ so_process so = sd_process sd /\ so_time so = sd_time sd
   /\ so_class so = sd_class sd /\ so_lifetime so = sd_lifetime sd
-  /\ (sd_class sd = 2 -> so_solver so = Some (sd_solver sd))
+  /\ (has_solver (sd_class sd) = true -> so_solver so = Some (sd_solver sd))
+  /\ (has_solver (sd_class sd) = false -> so_solver so = None)
   /\ get_subset dims (map KLetter (sd_dims sd)) = Ok (so_dims so)
   /\ hd 0 (letters (so_dims so)) = sd_time sd.
 Proof. exact stock_of_spec. Qed.
